@@ -31,6 +31,10 @@ CHECKS = {
             "Every program of depth <= 2 (thorough 3) over the full Stream/Set/StreamSet operation table from a grid of initial collections, for both API families, plus tens of thousands of PRNG programs of length 10-24 over mixed handles; after each step every live handle is re-read through the public API and compared with an immutable model, and ToArray's result is overwritten to test detachment.",
             "Trusted: the pure model of each operation (degenerate StreamSet cases pinned to the code's guards, DESIGN.md C04); pointer identity as handle identity.",
             "DESIGN.md section 5, C04"),
+    "C19": ("exploration", "order/stability/permutation oracle over bounded-exhaustive record lists with unique ids; reference lexicographic comparison for descriptor stacks",
+            "Every list of length 0..6 (thorough 8) over 3 key values plus PRNG lists up to 200 through all comparator-based sorts (both families) with five comparators, checked on all pairs for order and stability, as permutations, and for input preservation; all 492 descriptor stacks (1..3 keys x directions x transformer/field-name x three Comparable key types) over all short record lists plus PRNG lists through the four descriptor-sort entry points against a reference lexicographic comparison.",
+            "Trusted: the all-pairs order/stability predicates and the reference comparison; only strict comparators are generated.",
+            "DESIGN.md section 5, C19"),
 }
 
 NOT_YET = "check not built yet in this session (runtime monitoring applies; see DESIGN.md section 5)"
